@@ -353,7 +353,7 @@ def lean_prove(ctx, module):
             aud = os.path.join(WORK, "audit_%s.lean" % ctx.prop)
             write_if_changed(aud, "".join("import %s\n" % m for m in modules) + "".join("#print axioms %s\n" % n for n in names))
             rc, out, err = run(["lake", "env", "lean", aud], cwd=LEAN_DIR, timeout=1200)
-            for m in re.finditer(r"'([^']+)' (does not depend on any axioms|depends on axioms: \[([^\]]*)\])", out + err, re.S):
+            for m in re.finditer(r"^'(\S+?)' (does not depend on any axioms|depends on axioms: \[([^\]]*)\])", out + err, re.S | re.M):
                 axioms[m.group(1)] = [] if m.group(3) is None else [a.strip() for a in m.group(3).replace("\n", " ").split(",") if a.strip()]
             if rc != 0:
                 ctx.notes.append("axiom audit exited %d: %s" % (rc, (out + err)[-400:]))
